@@ -232,7 +232,14 @@ def run_circuit(ctx, case):
                     c0.setP(**kw)
             circ.extend_circuit(c0)
         if name == 'pre':
-            g1 = circ.measure(tuple(case['m1']), seed=case['seed1'])
+            if case['prng'] % 3 == 0:
+                # the measurement lives in a sub-circuit that is extended into the big one: the handle returned by sub.measure is the record of that measurement
+                csub = nq.sim.Circuit()
+                g1 = csub.measure(tuple(case['m1']), seed=case['seed1'])
+                circ.extend_circuit(csub)
+                ctx.label('measure gate through extend_circuit')
+            else:
+                g1 = circ.measure(tuple(case['m1']), seed=case['seed1'])
         elif name == 'mid':
             g2 = circ.measure(tuple(case['m2']), seed=case['seed2'])
     # make sure the circuit spans n wires
@@ -283,6 +290,8 @@ def run_circuit(ctx, case):
         s1 = segs[0] @ psi
         p1 = ref.born_marginal(s1, n, case['m1'])
         ctx.close(g1.probability, p1, 1e-10 * f, 'recorded probabilities refer to the state at that point of the circuit (first measurement)')
+        ctx.require(g1.bitstr is not None and g1.probability is not None and g2.bitstr is not None and g2.probability is not None,
+                    'every measure-gate handle holds the record of its measurement after apply_state')
         ctx.require(len(g1.bitstr) == len(case['m1']) and all(int(b) in (0, 1) for b in g1.bitstr) and len(g2.bitstr) == len(case['m2']) and all(int(b) in (0, 1) for b in g2.bitstr),
                     'recorded bit strings have one bit per measured qubit', f'{g1.bitstr} {g2.bitstr}')
         o1 = int(''.join(str(int(b)) for b in g1.bitstr), 2)
